@@ -52,6 +52,8 @@ func c03Base(victimID int, chatID []byte) []hlref.Tran {
 		{Type: hlref.TranSetUser, Fields: []hlref.Field{fld(hlref.FUserLogin, obf("spare")), sfld(hlref.FUserName, "n"), fld(hlref.FUserAccess, z8), fld(hlref.FUserPassword, []byte{0})}},
 		{Type: hlref.TranUserBroadcast, Fields: []hlref.Field{sfld(hlref.FData, "b")}},
 		{Type: hlref.TranDisconnectUser, Fields: []hlref.Field{fld(hlref.FUserID, hlref.BE16(victimID)), fld(hlref.FOptions, hlref.BE16(1))}},
+		{Type: hlref.TranDisconnectUser, Fields: []hlref.Field{fld(hlref.FUserID, hlref.BE16(999))}}, // an id nobody holds (any more)
+		{Type: hlref.TranDisconnectUser, Fields: []hlref.Field{fld(hlref.FUserID, hlref.BE16(998)), fld(hlref.FOptions, hlref.BE16(2))}},
 		{Type: hlref.TranGetMsgs},
 		{Type: hlref.TranOldPostNews, Fields: []hlref.Field{sfld(hlref.FData, "post")}},
 		{Type: hlref.TranGetNewsCatNameList, Fields: []hlref.Field{fld(hlref.FNewsPath, p1("Bun"))}},
@@ -392,9 +394,11 @@ func c03prop(ev *evid.Rec) func(rt *rapid.T) {
 			acct("good", "Good", "gpw", allAccess), acct("spare", "Spare", "spw", hlref.Access{}),
 			{Login: "hostile", Name: "Hostile", Password: "hpw", Access: func() hlref.Access {
 				a := hlref.AllAccess().Defined()
-				for _, p := range []int{hlref.PrivDisconUser, hlref.PrivDeleteUser, hlref.PrivModifyUser} {
-					a.Clear(p) // a hostile but authorised administrator removing other users is not a containment failure
+				for _, p := range []int{hlref.PrivDeleteUser, hlref.PrivModifyUser} {
+					a.Clear(p) // a hostile but authorised administrator removing other users' accounts is not a containment failure
 				}
+				// it may send disconnect requests: the well-behaved clients' account cannot be disconnected, so whatever such a
+				// request does, dropping one of them (or the process) is a failure
 				return a
 			}()}}}, func(rt *rapid.T, w *hlsim.World) {
 			desc := c03desc(hs)
